@@ -183,14 +183,29 @@ func Time(t *rapid.T, label string) time.Time {
 	return time.Date(year, time.Month(month), day, hour, minute, sec, nsec, loc)
 }
 
-// Bytes draws a non-nil byte string of 0..32 bytes.
+// Bytes draws a non-nil byte string of 0..32 bytes, now and then up to 200.
 func Bytes(t *rapid.T, label string) []byte {
 	n := rapid.IntRange(0, 6).Draw(t, label+"-len")
-	if rapid.IntRange(0, 7).Draw(t, label+"-long") == 0 {
+	switch rapid.IntRange(0, 15).Draw(t, label+"-long") {
+	case 0, 1:
 		n = rapid.IntRange(7, 32).Draw(t, label+"-len2")
+	case 2:
+		// longer than a small stack buffer (64 bytes, 64 base64 digits)
+		n = rapid.SampledFrom([]int{47, 48, 49, 63, 64, 65, 66, 96, 200}).Draw(t, label+"-len3")
 	}
 
 	b := make([]byte, n)
+
+	if n > 32 {
+		// (a pattern: two draws instead of one per byte)
+		start, step := rapid.Byte().Draw(t, label+"-start"), rapid.Byte().Draw(t, label+"-step")
+		for i := range b {
+			b[i] = start + byte(i)*step
+		}
+
+		return b
+	}
+
 	for i := range b {
 		b[i] = rapid.SampledFrom([]byte{0, 1, 2, 0x7f, 0x80, 0xfe, 0xff, 'a', '"', '='}).Draw(t, label+"-b")
 	}
